@@ -839,7 +839,7 @@ fn layer2(ctx: &Ctx) -> (BfsStats, Value) {
     }
     ctx.merge(l);
     let n_items = fine.len();
-    let cap = std::env::var("MC_CAP_S").ok().and_then(|s| s.parse().ok()).unwrap_or(ctx.pick(50.0, 1000.0));
+    let cap = std::env::var("MC_CAP_S").ok().and_then(|s| s.parse().ok()).unwrap_or(ctx.pick(50.0, 1150.0));
     let mut stats = explore_all(ctx, &scanning, fine, &op_code, cap);
     // explore_item counts each item's start state; they were counted in first_layer already
     stats.states = stats.states - n_items as u64 + first_layer.states;
